@@ -21,3 +21,21 @@ package neo3legacy
 //@   -- C19: the trust root is installed only if none was installed, and a later attempt fails without touching state
 //@   ensures[c19-once] err == nil ==> old(Store)[peerKey(cid)] == None
 //@   ensures[c19-rejected] old(Store)[peerKey(cid)] != None ==> err != nil && Store == old(Store)
+
+//@ func getConsensusValByChainId
+//@   property C24, C19
+//@   mode abstract
+//@   requires native != nil
+//@   modifies nothing
+//@   ensures err == nil ==> r0 != nil
+//@   ensures err != nil ==> r0 == nil
+//@   -- storage invariant (assumed): a stored record was written by putConsensusValByChainId and decodes (C04 round trip)
+//@   assumes Store[peerKey(chainID)] != None ==> err == nil
+
+//@ func putConsensusValByChainId
+//@   property C19
+//@   mode abstract
+//@   requires native != nil && neoConsensus != nil
+//@   modifies Store
+//@   ensures err == nil
+//@   ensures Store == upd(old(Store), peerKey(old(neoConsensus.ChainID)), Store[peerKey(old(neoConsensus.ChainID))]) && Store[peerKey(old(neoConsensus.ChainID))] != None
